@@ -6,19 +6,17 @@ Import Coq.Strings.String.StringSyntax.
 Open Scope N_scope.
 
 (* ---- Absent is never written ------------------------------------------------------------------------------------------- *)
-(* full statement: false of the faithful model (and of emitter.py): finding C18-meta-all-absent-blank-line *)
-Definition C18_absent_never_emitted_full : Prop := forall sp d, emit sp (drop_absent d) = emit sp d.
-Theorem C18_absent_never_emitted_refuted : exists sp d, emit sp (drop_absent d) <> emit sp d.
-Proof. exact absent_never_emitted_refuted. Qed.
-(* for every document whose META is not (non-empty and all-Absent), with every frontmatter whitespace oracle *)
-Theorem C18_absent_never_emitted_partial : forall sp d, meta_all_absent d = false -> emit sp (drop_absent d) = emit sp d.
+(* for every document and every frontmatter whitespace oracle; unconditional since /repo 1d4faf6 (finding
+   C18-meta-all-absent-blank-line, fixed: before it a non-empty all-Absent META left an empty line) *)
+Theorem C18_absent_never_emitted : forall sp d, emit sp (drop_absent d) = emit sp d.
 Proof. exact absent_never_emitted. Qed.
-(* on the excluded class the only trace is one blank line where the META block would be: no Absent field is written *)
-Theorem C18_absent_blank_line_only : forall sp d, meta_all_absent d = true ->
-  emit_lines sp d = head_lines sp d ++ [[]] ++ sep_lines d ++ body_lines d ++ foot_lines d /\
-  emit_lines sp (drop_absent d) = head_lines sp d ++ sep_lines d ++ body_lines d ++ foot_lines d.
-Proof. exact absent_blank_line_only. Qed.
-(* drop_absent really leaves no Absent anywhere, so the right-hand side above is the text of an Absent-free document *)
+(* regression: the all-Absent META document prints exactly the text of the document without META *)
+Theorem C18_all_absent_meta_regression :
+  meta_all_absent blank_meta_doc = true /\
+  emit (fun _ => false) blank_meta_doc = emit (fun _ => false) no_meta_doc /\
+  emit (fun _ => false) blank_meta_doc = lit "===D===" ++ [c_nl] ++ lit "// c" ++ [c_nl] ++ lit "//" ++ [c_nl] ++ lit "K::1" ++ [c_nl] ++ lit "===END===" ++ [c_nl].
+Proof. exact all_absent_meta_regression. Qed.
+(* drop_absent really leaves no Absent anywhere, so the left-hand side above is the text of an Absent-free document *)
 Theorem C18_drop_absent_free : forall d, doc_absent_free (drop_absent d) = true.
 Proof. exact drop_absent_free. Qed.
 (* value / node level, every indent *)
@@ -220,5 +218,10 @@ Theorem C18_pin_cli_changes :
   changes_cli_loop_header = pinned_changes_cli_loop_header.
 Proof. exact (conj pin_changes_cli_guard_chain (conj pin_changes_cli_branch_src pin_changes_cli_loop_header)). Qed.
 Theorem C18_pin_emitter_absent_filters :
-  emitter_absent_sites = pinned_emitter_absent_sites /\ emitter_absent_raise = pinned_emitter_absent_raise.
-Proof. exact (conj pin_emitter_absent_sites pin_emitter_absent_raise). Qed.
+  emitter_absent_sites = pinned_emitter_absent_sites /\ emitter_absent_raise = pinned_emitter_absent_raise /\
+  emitter_meta_block_src = pinned_emitter_meta_block_src /\ emitter_comment_src = pinned_emitter_comment_src.
+Proof. exact (conj pin_emitter_absent_sites (conj pin_emitter_absent_raise (conj pin_emitter_meta_block_src pin_emitter_comment_src))). Qed.
+(* emit() appends the META block only when emit_meta returned something (`if meta_text:`, /repo 1d4faf6) -- the source fact
+   the unconditional C18_absent_never_emitted rests on *)
+Theorem C18_emitter_meta_guarded : emitter_meta_guarded = true.
+Proof. exact pin_emitter_meta_guarded. Qed.
